@@ -162,3 +162,17 @@ def _restore_order(repo):
     lean = ("def c05RestoreOrder : List (String × List String) := [\n  "
             + ",\n  ".join(f"({lean_str(n)}, {_lean_list(s)})" for n, s in rows) + "]")
     return rows, lean
+
+
+@item("C05_HOOK_NOT_BRANCHES")
+def _hook_not_branches(repo):
+    """every `cfg(not(feature = "verif_hooks"))` in the files C05 hooks: a hook site must contain the
+    real call exactly once (only additions are guarded), otherwise the feature-off line — the code
+    users run — is invisible to every check"""
+    rows = []
+    for rel in ("minijinja/src/vm/mod.rs", "minijinja/src/vm/state.rs", "minijinja/src/vm/macro_object.rs",
+                "minijinja/src/vm/context.rs", "minijinja/src/vm/loop_object.rs"):
+        for n, line in enumerate(read(repo, rel).splitlines(), 1):
+            if re.search(r'not\(\s*feature\s*=\s*"verif_hooks"\s*\)', line):
+                rows.append(f"{rel}:{n}")
+    return rows, "def c05HookNotBranches : List String := " + _lean_list(rows)
